@@ -46,10 +46,11 @@ fn merge_binary_expression(
   match outer_operator {
     BinaryOperator::PLUS => {
       if inner.operator == BinaryOperator::PLUS {
-        Some(BinaryExpression {
+        // Do not merge when the merged constant does not fit in i32.
+        inner.e2.checked_add(outer_const).map(|e2| BinaryExpression {
           operator: BinaryOperator::PLUS,
           e1: inner.e1,
-          e2: inner.e2 + outer_const,
+          e2,
         })
       } else {
         None
@@ -57,10 +58,10 @@ fn merge_binary_expression(
     }
     BinaryOperator::MUL => {
       if inner.operator == BinaryOperator::MUL {
-        Some(BinaryExpression {
+        inner.e2.checked_mul(outer_const).map(|e2| BinaryExpression {
           operator: BinaryOperator::MUL,
           e1: inner.e1,
-          e2: inner.e2 * outer_const,
+          e2,
         })
       } else {
         None
@@ -73,10 +74,11 @@ fn merge_binary_expression(
     | BinaryOperator::EQ
     | BinaryOperator::NE => {
       if inner.operator == BinaryOperator::PLUS {
-        Some(BinaryExpression {
+        // `(x + c1) < c2` is `x < c2 - c1` only when `c2 - c1` does not wrap around.
+        outer_const.checked_sub(inner.e2).map(|e2| BinaryExpression {
           operator: outer_operator,
           e1: inner.e1,
-          e2: outer_const - inner.e2,
+          e2,
         })
       } else {
         None
